@@ -173,7 +173,7 @@ func runLoopConfigs(c *chk.Ctx, prop string, cfgs []*loop.Config, handover bool)
 }
 
 func c03ScaleUpGen(c *chk.Ctx) func(emit func(*h1.Scenario)) {
-	classes := []int{clsLoaded, clsIdleRecent, clsIdleExpired, clsIdleExpiredStale, clsHeadOver}
+	classes := []int{clsLoaded, clsIdleRecent, clsIdleExpired, clsIdleExpiredStale, clsHeadOver, clsVanished}
 	return func(emit func(*h1.Scenario)) {
 		for n := 1; n <= 3; n++ {
 			dims := make([]int, n)
